@@ -8,6 +8,8 @@ Events (JSON-able tuples):
   ("getd", T, key, attr)          getattr(atom, attr, None)
   ("import", module)              import periodictable.<module>
   ("calc", name, arg)             a calculator call (see CALCS)
+  ("ocalc", name, arg)            a calculator call / computed read outside the model's alphabet (ORDER_CALCS):
+                                  judged by the oracle only, against a pristine process that does nothing else
   ("init", M, T)                  <module>.init(T)   (M in INITS; T = "public" or a private label)
   ("newtable", T)                 T = PeriodicTable(name); mass.init(T); density.init(T)
   ("rawtable", T)                 T = PeriodicTable(name) only
@@ -188,6 +190,8 @@ class Child:
             return self.outcome(imp)
         if k == "calc":
             return self.outcome(lambda: ["val", digest(calc(self, ev[1], ev[2], ev[3] if len(ev) > 3 else "public"))])
+        if k == "ocalc":
+            return self.outcome(lambda: ["val", digest(calc(self, ev[1], ev[2]))])
         if k == "init":
             def ini():
                 init_fn(ev[1])(self.tables[ev[2]])
@@ -333,6 +337,22 @@ def calc(ch, name, arg, T="public"):
     if name == "f0":
         from periodictable import cromermann
         return cromermann.fxrayatq(arg, 0.5)
+    if name == "f0q":           # arg = [symbol, charge]
+        from periodictable import cromermann
+        return cromermann.fxrayatq(arg[0], 0.5, charge=arg[1])
+    if name == "atom_f0":       # atom.xray.f0(Q) on an atom key
+        return ch.atom(T, tuple(arg)).xray.f0(0.5)
+    if name == "xray_table":    # the lazily read per-atom scattering-factor table and what is computed from it
+        x = ch.atom(T, tuple(arg)).xray
+        out = []
+        for label, fn in (("sftable", lambda: x.sftable),
+                          ("scattering_factors", lambda: x.scattering_factors(energy=8.0)),
+                          ("sld", lambda: x.sld(energy=8.0))):
+            try:
+                out.append((label, fn()))
+            except Exception as e:  # noqa
+                out.append((label, "raises " + type(e).__name__))
+        return out
     if name == "activation":
         from periodictable import activation
         env = activation.ActivationEnvironment(fluence=1e8, Cd_ratio=0, fast_ratio=0)
